@@ -705,6 +705,174 @@ fn gen_trace(g: &mut Gen) -> TraceOut {
 }
 
 
+// ---------------------------------------------------------------- sequential exploration
+/// operations of the sequential alphabet: (op, a, b) with a = -1 meaning "pick the object"
+const SEQ_OPS: [(i64, i64, i64, u8); 15] = [
+    (OP_GET, 1, 0, 0),  // try_get
+    (OP_GET, 0, 0, 0),  // get (may park)
+    (OP_GET, 3, 0, 0),  // timeout_get(0)
+    (OP_GET, 4, 0, 0),  // timeout_get(finite): NoRuntimeSpecified
+    (OP_GET, 1, 1, 0),  // try_remove
+    (OP_ADD, -1, 0, 0), // try_add of a fresh object
+    (OP_ADD, -1, 1, 0), // add of a fresh object (may park)
+    (OP_ADD, -2, 0, 0), // try_add of an object the caller got back
+    (OP_DROP, -1, 0, 0),
+    (OP_DROP, -3, 0, 0), // the held object with the highest id
+    (OP_TAKE, -1, 0, 0),
+    (OP_CLOSE, 0, 0, 0),
+    (OP_STATUS, 0, 0, 0),
+    (-1, 0, 0, 1), // the oldest parked get is abandoned
+    (-1, 0, 0, 2), // the oldest parked add is abandoned
+];
+
+/// everything that can run by itself runs to its end; parked callers without a permit stay parked
+fn seq_settle(w: &mut World, out: &mut TraceOut) -> bool {
+    for _ in 0..400 {
+        let mut next = None;
+        let snap = w.pool.verif_snapshot();
+        for (t, y) in w.sched.states().iter().enumerate() {
+            match y {
+                Yield::Done(_) => {}
+                Yield::Sem => {
+                    let closed = if w.ops[t] == OP_ADD { snap.size_closed } else { snap.closed };
+                    if w.sched.woken(t) || closed {
+                        next = Some(vec![L_STEP, t as i64, 0, 0, 0]);
+                    }
+                }
+                _ => next = Some(vec![L_STEP, t as i64, 0, 0, 0]),
+            }
+            if next.is_some() {
+                break;
+            }
+        }
+        match next {
+            Some(l) => {
+                if !run_label(w, out, l) {
+                    return false;
+                }
+            }
+            None => return true,
+        }
+    }
+    false
+}
+
+fn seq_parked(w: &World, adds: bool) -> Vec<usize> {
+    w.sched
+        .states()
+        .iter()
+        .enumerate()
+        .filter(|(t, y)| matches!(y, Yield::Sem) && !w.sched.woken(*t) && (w.ops[*t] == OP_ADD) == adds)
+        .map(|(t, _)| t)
+        .collect()
+}
+
+fn seq_apply(w: &mut World, out: &mut TraceOut, o: (i64, i64, i64, u8)) -> bool {
+    let (op, a, b, special) = o;
+    let t = w.sched.ntasks() as i64;
+    let held: Vec<i64> = w.held.lock().unwrap().keys().map(|k| *k as i64).collect();
+    let loose: Vec<i64> = w.loose.lock().unwrap().keys().map(|k| *k as i64).collect();
+    let ok = match special {
+        1 | 2 => match seq_parked(w, special == 2).first() {
+            Some(p) => run_label(w, out, vec![L_CANCEL, *p as i64, 0, 0, 0]),
+            None => false,
+        },
+        _ => {
+            let a = match (op, a) {
+                (OP_ADD, -1) => w.next_oid as i64,
+                (OP_ADD, -2) => match loose.first() {
+                    Some(x) => *x,
+                    None => return false,
+                },
+                (OP_DROP, -1) | (OP_TAKE, -1) => match held.first() {
+                    Some(x) => *x,
+                    None => return false,
+                },
+                (OP_DROP, -3) => {
+                    if held.len() < 2 {
+                        return false;
+                    }
+                    held[held.len() - 1]
+                }
+                (_, a) => a,
+            };
+            if (op == OP_GET || op == OP_ADD) && b == 1 && op == OP_ADD && seq_parked(w, true).len() >= 2 {
+                return false;
+            }
+            if op == OP_GET && a == 0 && seq_parked(w, false).len() >= 2 {
+                return false;
+            }
+            if op == OP_CLOSE && w.pool.verif_snapshot().closed {
+                return false;
+            }
+            if w.sched.ntasks() > 40 {
+                return false;
+            }
+            run_label(w, out, vec![L_START, t, op, a, b])
+        }
+    };
+    ok && seq_settle(w, out)
+}
+
+fn seq_key(w: &World) -> Vec<i64> {
+    let s = w.pool.verif_snapshot();
+    vec![
+        s.permits as i64,
+        s.size_permits as i64,
+        s.closed as i64,
+        s.size_closed as i64,
+        s.size as i64,
+        s.available as i64,
+        s.queue_len as i64,
+        w.held.lock().unwrap().len() as i64,
+        w.loose.lock().unwrap().len().min(2) as i64,
+        seq_parked(w, false).len() as i64,
+        seq_parked(w, true).len() as i64,
+    ]
+}
+
+/// breadth first over sequences of whole operations, pruned by the abstract pool state; one trace per
+/// (state, operation) edge, each followed by the usual drain and probe
+fn explore_seq(cfg: Cfg, max_depth: usize, max_edges: usize) -> usize {
+    use std::collections::{HashSet, VecDeque};
+    let mut seen: HashSet<Vec<i64>> = HashSet::new();
+    let mut queue: VecDeque<Vec<usize>> = VecDeque::new();
+    queue.push_back(vec![]);
+    let mut edges = 0usize;
+    while let Some(path) = queue.pop_front() {
+        for oi in 0..SEQ_OPS.len() {
+            if edges >= max_edges {
+                return edges;
+            }
+            let mut w = World::new(&cfg);
+            let mut out = TraceOut { cfg: cfg.clone(), labels: vec![], obs: vec![], err: None };
+            let mut ok = true;
+            for p in &path {
+                ok = ok && seq_apply(&mut w, &mut out, SEQ_OPS[*p]);
+            }
+            let applied = ok && seq_apply(&mut w, &mut out, SEQ_OPS[oi]);
+            if !applied {
+                if out.err.is_some() {
+                    print_trace(edges, &out);
+                    edges += 1;
+                }
+                cleanup(w);
+                continue;
+            }
+            if seen.insert(seq_key(&w)) && path.len() + 1 < max_depth {
+                let mut np = path.clone();
+                np.push(oi);
+                queue.push_back(np);
+            }
+            finish(&mut w, &mut out);
+            print_trace(edges, &out);
+            edges += 1;
+            cleanup(w);
+        }
+    }
+    edges
+}
+
 // ---------------------------------------------------------------- close() racing one operation, every merge
 /// scenario = (cfg, set-up operations run to completion or until parked, the racing operation)
 type Opn = (i64, i64, i64);
@@ -945,6 +1113,12 @@ fn main() {
                 let t = gen_trace(&mut g);
                 print_trace(i, &t);
             }
+        }
+        Some("seq") => {
+            // seq <ctor> <max_size> <pool timeout code> <max depth> <max edges>
+            let cfg = Cfg { ctor: args[2].parse().unwrap(), max: args[3].parse().unwrap(), ptmo: args[4].parse().unwrap() };
+            let n = explore_seq(cfg, args[5].parse().unwrap(), args[6].parse().unwrap());
+            eprintln!("seq: {} traces", n);
         }
         Some("replay") => {
             let text = std::fs::read_to_string(&args[2]).unwrap();
